@@ -87,6 +87,7 @@ type blockRecord struct {
 	Res     *abci.ResponseFinalizeBlock
 	Err     error
 	BaseFee *big.Int // base fee in force during this block
+	Floor   *big.Int // max(base fee, integer part of the global minimum gas price) during this block
 	End     interface{}
 }
 
@@ -95,7 +96,7 @@ func runBlockPlans(c *chain.Chain, blocks []BlockPlan, snap func(ctx sdk.Context
 	var out []blockRecord
 	for _, bp := range blocks {
 		pb := newPlanBuilder(c)
-		rec := blockRecord{Plan: bp, BaseFee: new(big.Int).Set(pb.baseFee)}
+		rec := blockRecord{Plan: bp, BaseFee: new(big.Int).Set(pb.baseFee), Floor: new(big.Int).Set(pb.floor)}
 		var txs [][]byte
 		for _, p := range bp.Txs {
 			bt := pb.build(p)
